@@ -7,7 +7,6 @@
 package py
 
 import (
-	"fmt"
 	"math"
 	"math/big"
 	"strconv"
@@ -48,10 +47,29 @@ func FloatNew(metatype *Type, args Tuple, kwargs StringDict) (Object, error) {
 }
 
 func (a Float) M__str__() (Object, error) {
-	if i := int64(a); Float(i) == a {
-		return String(fmt.Sprintf("%d.0", i)), nil
+	f := float64(a)
+	switch {
+	case math.IsNaN(f):
+		return String("nan"), nil
+	case math.IsInf(f, 1):
+		return String("inf"), nil
+	case math.IsInf(f, -1):
+		return String("-inf"), nil
 	}
-	return String(fmt.Sprintf("%g", a)), nil
+	// The shortest digits which convert back to f, in exponent
+	// format if the decimal exponent is below -4 or 16 and above
+	s := strconv.FormatFloat(f, 'e', -1, 64)
+	exp, err := strconv.Atoi(s[strings.IndexByte(s, 'e')+1:])
+	if err != nil {
+		return nil, err
+	}
+	if -4 <= exp && exp < 16 {
+		s = strconv.FormatFloat(f, 'f', -1, 64)
+		if !strings.ContainsRune(s, '.') {
+			s += ".0"
+		}
+	}
+	return String(s), nil
 }
 
 func (a Float) M__repr__() (Object, error) {
